@@ -215,3 +215,13 @@ Example ex_sequence :
     parse_tokens b' = Ok [ mkToken 10 255 65535 4 1000; mkToken 20 255 65535 4 9; mkToken 30 255 65535 4 3000;
                            mkToken 20 4 1 0 1; mkToken 20 4 240 4 9; mkToken 25 4 240 4 6; mkToken 40 4 240 4 8 ].
 Proof. eexists. split; [vm_compute; reflexivity|]. split; vm_compute; reflexivity. Qed.
+
+(* ---- format constants ----
+   The models take their format constants from Gen/Consts.v, which is regenerated from /repo's
+   source on every run; Spec/ConstPins.v (committed, written by bin/mkpins) pins every one of them
+   to the value the specifications give it.  A constant that drifts in the Go source breaks this
+   theorem instead of being silently followed by model and generator. *)
+From Fiano Require Spec.ConstPins.
+Theorem C18_format_constants_pinned : Spec.ConstPins.pinned_c18.
+Proof. exact Spec.ConstPins.pins_c18. Qed.
+Print Assumptions C18_format_constants_pinned.
